@@ -238,6 +238,24 @@ def generate(rng, tier):
                     A = [complex(x, fval(g, sc) if g.chance(1, 2) else 0.0) for x in A]
                     b = [complex(x, fval(g, sc)) for x in b]
                 cases.append(mk(elt, n, A, b, elt + "-" + fam, n >= 2))
+    # Complex<f64> entries ON THE AXES: a real nonsingular matrix with column j multiplied by a unit u_j in {1, -1, i, -i}
+    # (still nonsingular), so that every pivot candidate of a column is purely real or purely imaginary, of either sign.
+    # The pivot rule compares moduli: shortcuts of Complex::abs that are wrong on an axis (seeded mutations C01-8, C02-7)
+    # only show here.
+    g = rng.fork("cplx-axes")
+    units = [1, -1, 1j, -1j]
+    for fam in ["dense", "zero-lead", "perm", "upper", "lower", "neg-dominant"]:
+        for t in range(6 if tier == "quick" else 40):
+            n = 1 + (t % 6)
+            for _ in range(20):
+                A = gen_matrix(g, n, fam, 'f64')
+                if nonsingular(A, n): break
+            if not nonsingular(A, n): continue
+            us = [g.choice(units) for _ in range(n)]
+            if t % 3 == 0: us = [g.choice([1j, -1j])] * n          # the whole matrix purely imaginary
+            Ac = [complex(A[i * n + j]) * us[j] for i in range(n) for j in range(n)]
+            b = [complex(fval(g), fval(g) if g.chance(1, 2) else 0.0) for _ in range(n)]
+            cases.append(mk('cplx', n, Ac, b, "cplx-axes-" + fam, n >= 2))
     # adversarial: Complex<f64> at magnitudes where re^2+im^2 leaves the normal range (recorded finding cplx-sqmod-range)
     g = rng.fork("cplx-extreme")
     for t in range(8 if tier == "quick" else 60):
